@@ -118,6 +118,16 @@ def run_full(spec):
             out["violations"].append(dict(key=key, msg=msg, witness=w))
 
     cm = harness.client_mod()
+    # a contest without a single vote: a blocklisted state that has not reported anything yet (its predicted turnout
+    # is zero, so its margin is 0/0 before any call is applied)
+    empty_state = None
+    if not el.district and el.meta["n_states"] >= 2 and spec["i"] % 4 == 2:
+        empty_state = str(el.pre.postal_code.iloc[-1])
+        m_ = feed.postal_code == empty_state
+        feed.loc[m_, ["results_turnout", "results_dem", "results_gop"]] = 0
+        feed.loc[m_, "percent_expected_vote"] = 0.0
+        call["model_parameters"]["postal_code_blocklist"] = [empty_state]
+        out["counters"]["runs_with_zero_turnout_contest"] = 1
     res0, exc = harness.run_estimates(el, feed, call)
     if exc is not None:
         if isinstance(exc, cm.ModelNotEnoughSubunitsException):
@@ -137,6 +147,10 @@ def run_full(spec):
     k_l, k_r = int(rng.integers(0, n // 2 + 1)), int(rng.integers(0, n // 2 + 1))
     lhs, rhs = perm[:k_l], perm[k_l:k_l + k_r]
     stop = [names[j] for j in rng.permutation(n)[: int(rng.integers(0, n // 2 + 1))]]
+    if empty_state is not None and empty_state in names:  # the empty contest is always called
+        lhs = [x for x in lhs if x != empty_state]
+        rhs = [x for x in rhs if x != empty_state]
+        (lhs if spec["i"] % 8 == 2 else rhs).append(empty_state)
     c2 = copy.deepcopy(call)
     c2.update(lhs_called_contests=lhs, rhs_called_contests=rhs, stop_model_call=stop)
     res1, exc = harness.run_estimates(el, feed, c2)
